@@ -524,7 +524,8 @@ SIGS = {
             "purge-with-fetch-pending-from-host", "transmit-from-host-without-dataset", "transmit-from-host-being-purged",
             "fetch-from-host-without-dataset", "fetch-from-host-being-purged", "transfer-source-lost-dataset", "fetch-source-lost-dataset",
             "purged-dataset-needed-again"},
-    "C01": {"task-read-wrong-bytes", "shm-key-collision", "wrong-output-value", "requested-output-missing", "raised"},
+    "C01": {"task-read-wrong-bytes", "shm-key-collision", "wrong-output-value", "requested-output-missing", "raised", "deadlock", "spin",
+            "premature-exit", "fetch-source-lost-dataset", "transfer-source-lost-dataset"},
 }
 REORDER_FINDING = "reordered-publications"   # open finding of C03: see known_findings.json
 
